@@ -149,8 +149,8 @@ def run_hunted(pid, jobs=16, tier="quick"):
         return [], 0
     entries = [e for e in json.load(open(cp)) if e["property"] == pid]
     # the demonstrations of the seeded breaking changes (independent oracles written by the seeding agents: each prints
-    # PROPERTY HOLDS on the unchanged tree and PROPERTY VIOLATED with its change): rounds 4-5 in the quick tier, all in the thorough tier
-    pats = ["%s-[mn]" % pid] if tier != "thorough" else ["%s-*" % pid]
+    # PROPERTY HOLDS on the unchanged tree and PROPERTY VIOLATED with its change): rounds 4-6 in the quick tier, all in the thorough tier
+    pats = ["%s-[mnp]" % pid] if tier != "thorough" else ["%s-*" % pid]
     for pat in pats:
         for d in sorted(glob.glob(os.path.join(VERIF, "seeded", pat, "demo.py"))):
             entries.append({"script": os.path.relpath(d, os.path.join(VERIF, "hunted")), "property": pid, "seed_demo": os.path.basename(os.path.dirname(d))})
